@@ -12,6 +12,8 @@ pub fn run(r: &mut Rec) {
     text::run(r);
     // the MIN / MAX of every scalar type through every operator form (overflow-checked and wrapping builds must agree)
     crate::drivers::forms::extremes(r);
+    // bit writes around the lowest set bit at the digit boundaries (mask arithmetic that overflows only with checks on)
+    crate::drivers::bits::lowbit_family(r, false);
     // cross-section: arithmetic, division conventions, bits, conversions on fixed operands
     let mut rng = Rng(r.seed ^ 0xC16);
     for k in 0..40 {
